@@ -196,7 +196,7 @@ func c19Gen(c *Ctx) {
 		if r.IntN(8) == 0 { // long multi-tenant host names with a common suffix and prefix
 			host = strings.Repeat("tenant-with-a-long-name.", 5+r.IntN(6)) + randToken(r, 1+r.IntN(8)) + ".example.com"
 		}
-		hn := pick(r, []string{"X-Source", "x-source", "Authorization", "X-Forwarded-For", "Weird_Name", "A", "authorization", "user-agent", "date", "te", "referer", "session-id", "host-hint", "etag", "query", "dnt", "User-Agent"})
+		hn := pick(r, []string{"X-Source", "x-source", "Authorization", "X-Forwarded-For", "Weird_Name", "A", "authorization", "user-agent", "date", "te", "referer", "session-id", "host-hint", "etag", "query", "dnt", "User-Agent", "X.Tenant", "a.b.c", "request.header.X", "X-Api.Key"})
 		if r.IntN(3) == 0 {
 			hn = "X-" + randToken(r, 1+r.IntN(10))
 		}
